@@ -2,6 +2,7 @@ package eng
 
 import (
 	"fmt"
+	"os"
 	"go/token"
 	"go/types"
 	"strings"
@@ -38,6 +39,9 @@ func (x *Exec) run(st *State) {
 		}
 		in := fr.blk.Instrs[fr.idx]
 		x.step(st, in)
+		if st.dead && os.Getenv("GVC_DEBUG") != "" {
+			fmt.Fprintf(os.Stderr, "path-end %s at %s: %s\n", strings.Join(st.path, ";"), x.P.PosStr(in.Pos()), in)
+		}
 	}
 }
 
@@ -72,6 +76,7 @@ func (x *Exec) goTo(st *State, from, to *ssa.BasicBlock) {
 		if li.body[from] {
 			// back edge: invariant preservation, then the path ends
 			if top && li.lc != nil {
+				x.Cover(st, fmt.Sprintf("loop%d-body-completes", li.ordinal), to.Instrs[0].Pos())
 				env := x.envAt(st)
 				for i, c := range li.lc.Invariants {
 					o := x.oblig(x.invName(li, i, c)+"/preserved", "invariant-pres", c.Tags, to.Instrs[0].Pos())
